@@ -22,7 +22,79 @@ fn all1() -> Vec<(&'static str, RunFn)> {
         ("dns", check::<Dns>),
         ("icmpv4", check::<Icmp4>),
         ("icmpv6", check::<Icmp6>),
+        ("wire-enums", check_enums),
     ]
+}
+
+/// Table obligation over every numeric enum of smoltcp::wire (frozen tables in common.rs): distinct
+/// named variants emit distinct, assigned numbers and parse back to themselves; unassigned numbers
+/// survive as Unknown(x).  Plus the enums that are not `enum_with_unknown!` types: the IGMP message
+/// numbers (through IgmpRepr::emit), Ipv6OptionFailureType (two bits) and the 6LoWPAN NHC extension
+/// header ids (through the packet accessor and `IpProtocol::from`).  Pure: evaluated once per process.
+fn check_enums(_r: &mut Rng, _tier: &str, _e: Option<&Kv>, stats: &mut std::collections::BTreeMap<String, u64>) -> (Vec<super::Fail>, Option<String>) {
+    static RES: std::sync::OnceLock<(u64, Vec<(String, String)>)> = std::sync::OnceLock::new();
+    let (n, fl) = RES.get_or_init(|| {
+        let mut f: Vec<(String, String)> = vec![];
+        let mut n = 0u64;
+        for c in all_enum_checks() {
+            n += 1;
+            f.extend(guard(c).unwrap_or_else(|| vec![("enum-table-panic".into(), "a conversion panicked".into())]));
+        }
+        // IGMP message numbers
+        n += 1;
+        let g = Ipv4Address::new(224, 0, 0, 5);
+        let z = smoltcp::time::Duration::from_millis(0);
+        for (want, name, repr) in [
+            (0x11u8, "MembershipQuery", IgmpRepr::MembershipQuery { max_resp_time: z, group_addr: g, version: IgmpVersion::Version1 }),
+            (0x12, "MembershipReport V1", IgmpRepr::MembershipReport { group_addr: g, version: IgmpVersion::Version1 }),
+            (0x16, "MembershipReport V2", IgmpRepr::MembershipReport { group_addr: g, version: IgmpVersion::Version2 }),
+            (0x17, "LeaveGroup", IgmpRepr::LeaveGroup { group_addr: g }),
+        ] {
+            let mut b = vec![0u8; repr.buffer_len()];
+            if guard(|| repr.emit(&mut IgmpPacket::new_unchecked(&mut b[..]))).is_none() || b[0] != want {
+                f.push(("enum-igmpmessage-emit-number".into(), format!("IgmpRepr {} emits type 0x{:02x}, assigned 0x{:02x}", name, b[0], want)));
+            }
+            match guard(|| IgmpPacket::new_checked(&b[..]).and_then(|p| IgmpRepr::parse(&p))) {
+                Some(Ok(back)) if back == repr => {}
+                other => f.push(("enum-igmpmessage-roundtrip".into(), format!("IgmpRepr {} emits {} which parses as {:?}", name, hex(&b), other))),
+            }
+        }
+        // Ipv6OptionFailureType: the two high bits of the option type
+        n += 1;
+        for (want, var) in [(0x00u8, Ipv6OptionFailureType::Skip), (0x40, Ipv6OptionFailureType::Discard), (0x80, Ipv6OptionFailureType::DiscardSendAll), (0xc0, Ipv6OptionFailureType::DiscardSendUnicast)] {
+            if u8::from(var) != want || Ipv6OptionFailureType::from(want) != var {
+                f.push(("enum-ipv6optionfailuretype-number".into(), format!("{:?} emits 0x{:02x}, 0x{:02x} parses as {:?}", var, u8::from(var), want, Ipv6OptionFailureType::from(want))));
+            }
+        }
+        for x in 0..=255u8 {
+            if guard(|| u8::from(Ipv6OptionFailureType::from(x))) != Some(x & 0xc0) {
+                f.push(("enum-ipv6optionfailuretype-number".into(), format!("0x{:02x} does not map to its two high bits", x)));
+                break;
+            }
+        }
+        // 6LoWPAN NHC extension header ids
+        n += 1;
+        let want: [(SixlowpanExtHeaderId, IpProtocol); 8] = [
+            (SixlowpanExtHeaderId::HopByHopHeader, IpProtocol::HopByHop),
+            (SixlowpanExtHeaderId::RoutingHeader, IpProtocol::Ipv6Route),
+            (SixlowpanExtHeaderId::FragmentHeader, IpProtocol::Ipv6Frag),
+            (SixlowpanExtHeaderId::DestinationOptionsHeader, IpProtocol::Ipv6Opts),
+            (SixlowpanExtHeaderId::MobilityHeader, IpProtocol::Unknown(0)),
+            (SixlowpanExtHeaderId::Reserved, IpProtocol::Unknown(0)),
+            (SixlowpanExtHeaderId::Reserved, IpProtocol::Unknown(0)),
+            (SixlowpanExtHeaderId::Header, IpProtocol::Unknown(0)),
+        ];
+        for eid in 0..8u8 {
+            let b = [0xe0 | (eid << 1) | 1, 0];
+            let got = guard(|| SixlowpanExtHeaderPacket::new_unchecked(&b[..]).extension_header_id());
+            if got != Some(want[eid as usize].0) || got.map(IpProtocol::from) != Some(want[eid as usize].1) {
+                f.push(("enum-sixlowpanextheaderid-number".into(), format!("EID {} reads as {:?} -> {:?}, expected {:?} -> {:?}", eid, got, got.map(IpProtocol::from), want[eid as usize].0, want[eid as usize].1)));
+            }
+        }
+        (n, f)
+    });
+    *stats.entry("enum_tables".into()).or_default() = *n;
+    (fl.iter().map(|(c, d)| super::Fail { class: c.clone(), detail: d.clone() }).collect(), None)
 }
 
 fn v6(a: &[u8; 16]) -> Ipv6Address {
@@ -253,7 +325,7 @@ impl WireType for Iphc {
             ll_src_addr: lls,
             dst_addr: v6(&dst),
             ll_dst_addr: lld,
-            next_header: if r.chance(1, 3) { SixlowpanNextHeader::Compressed } else { SixlowpanNextHeader::Uncompressed(IpProtocol::from(gen_u8(r))) },
+            next_header: if r.chance(1, 3) { SixlowpanNextHeader::Compressed } else { SixlowpanNextHeader::Uncompressed(draw::<IpProtocol>(r)) },
             hop_limit: *r.pick(&[1u8, 64, 255, 0, 2, 63, 65, 254, 128]),
             ecn: None,
             dscp: None,
@@ -293,7 +365,7 @@ impl WireType for Iphc {
             ll_src_addr: ll_dec(kv.s("llsrc")),
             dst_addr: v6(&arr16(&kv.b("dst"))),
             ll_dst_addr: ll_dec(kv.s("lldst")),
-            next_header: if kv.s("nh") == "c" { SixlowpanNextHeader::Compressed } else { SixlowpanNextHeader::Uncompressed(IpProtocol::from(kv.u("nh") as u8)) },
+            next_header: if kv.s("nh") == "c" { SixlowpanNextHeader::Compressed } else { SixlowpanNextHeader::Uncompressed(of_raw::<IpProtocol>((kv.u("nh") as u8) as u32)) },
             hop_limit: kv.u("hop") as u8,
             ecn: None,
             dscp: None,
@@ -374,11 +446,7 @@ impl WireType for Dns {
         let all = DnsFlags::all().bits();
         DnsR {
             id: gen_u16(r),
-            opcode: match r.below(4) {
-                0 => 0,
-                1 => 1,
-                _ => r.below(16) as u8,
-            },
+            opcode: (draw_raw::<DnsOpcode>(r) & 0x0f) as u8, // a 4-bit field
             flags: match r.below(4) {
                 0 => 0,
                 1 => all,
@@ -386,15 +454,15 @@ impl WireType for Dns {
                 _ => (r.next() as u16) & all,
             },
             name: dns_name(r),
-            qtype: *r.pick(&[1u16, 2, 5, 6, 28, 0, 255, 0xffff, 16]),
+            qtype: draw_raw::<DnsQueryType>(r) as u16,
         }
     }
     fn buffer_len(x: &DnsR) -> usize {
-        DnsRepr { transaction_id: x.id, opcode: DnsOpcode::from(x.opcode), flags: DnsFlags::from_bits_truncate(x.flags), question: DnsQuestion { name: &x.name, type_: DnsQueryType::from(x.qtype) } }
+        DnsRepr { transaction_id: x.id, opcode: of_raw::<DnsOpcode>((x.opcode) as u32), flags: DnsFlags::from_bits_truncate(x.flags), question: DnsQuestion { name: &x.name, type_: of_raw::<DnsQueryType>((x.qtype) as u32) } }
             .buffer_len()
     }
     fn emit(x: &DnsR, buf: &mut [u8]) {
-        let repr = DnsRepr { transaction_id: x.id, opcode: DnsOpcode::from(x.opcode), flags: DnsFlags::from_bits_truncate(x.flags), question: DnsQuestion { name: &x.name, type_: DnsQueryType::from(x.qtype) } };
+        let repr = DnsRepr { transaction_id: x.id, opcode: of_raw::<DnsOpcode>((x.opcode) as u32), flags: DnsFlags::from_bits_truncate(x.flags), question: DnsQuestion { name: &x.name, type_: of_raw::<DnsQueryType>((x.qtype) as u32) } };
         repr.emit(&mut DnsPacket::new_unchecked(buf))
     }
     // there is no DnsRepr::parse: read the header back through the Packet accessors and Question::parse
@@ -445,12 +513,12 @@ pub struct Icmp4R {
 pub struct Icmp4;
 impl Icmp4 {
     fn with<T>(x: &Icmp4R, f: impl FnOnce(Icmpv4Repr) -> T) -> T {
-        let header = Ipv4Repr { src_addr: v4(&x.h_src), dst_addr: v4(&x.h_dst), next_header: IpProtocol::from(x.h_proto), payload_len: x.h_payload_len, hop_limit: x.h_hop };
+        let header = Ipv4Repr { src_addr: v4(&x.h_src), dst_addr: v4(&x.h_dst), next_header: of_raw::<IpProtocol>((x.h_proto) as u32), payload_len: x.h_payload_len, hop_limit: x.h_hop };
         let repr = match x.kind {
             0 => Icmpv4Repr::EchoRequest { ident: x.ident, seq_no: x.seq_no, data: &x.data },
             1 => Icmpv4Repr::EchoReply { ident: x.ident, seq_no: x.seq_no, data: &x.data },
-            2 => Icmpv4Repr::DstUnreachable { reason: Icmpv4DstUnreachable::from(x.reason), header, data: &x.data },
-            _ => Icmpv4Repr::TimeExceeded { reason: Icmpv4TimeExceeded::from(x.reason), header, data: &x.data },
+            2 => Icmpv4Repr::DstUnreachable { reason: of_raw::<Icmpv4DstUnreachable>((x.reason) as u32), header, data: &x.data },
+            _ => Icmpv4Repr::TimeExceeded { reason: of_raw::<Icmpv4TimeExceeded>((x.reason) as u32), header, data: &x.data },
         };
         f(repr)
     }
@@ -488,10 +556,10 @@ impl WireType for Icmp4 {
             let n = gen_payload_len(r, tier, 1472);
             x.data = gen_payload(r, n);
         } else {
-            x.reason = if r.chance(1, 2) { r.below(if kind == 2 { 16 } else { 2 }) as u8 } else { gen_u8(r) };
+            x.reason = if kind == 2 { draw_raw::<Icmpv4DstUnreachable>(r) } else { draw_raw::<Icmpv4TimeExceeded>(r) } as u8;
             x.h_src = gen_ipv4(r);
             x.h_dst = gen_ipv4(r);
-            x.h_proto = *r.pick(&[1u8, 6, 17, 0, 255, 58]);
+            x.h_proto = draw_raw::<IpProtocol>(r) as u8;
             x.h_hop = gen_u8(r);
             // the documented cut: an ICMPv4 error carries the offending IP header + at least 8 octets,
             // at most what fits IPV4_MIN_MTU (576 - 20 - 8 - 20 = 528); header.payload_len = data.len()
@@ -564,12 +632,12 @@ pub struct Icmp6R {
 pub struct Icmp6;
 impl Icmp6 {
     fn with<T>(x: &Icmp6R, f: impl FnOnce(Icmpv6Repr) -> T) -> T {
-        let header = Ipv6Repr { src_addr: v6(&x.h_src), dst_addr: v6(&x.h_dst), next_header: IpProtocol::from(x.h_proto), payload_len: x.h_payload_len, hop_limit: x.h_hop };
+        let header = Ipv6Repr { src_addr: v6(&x.h_src), dst_addr: v6(&x.h_dst), next_header: of_raw::<IpProtocol>((x.h_proto) as u32), payload_len: x.h_payload_len, hop_limit: x.h_hop };
         let repr = match x.kind {
-            0 => Icmpv6Repr::DstUnreachable { reason: Icmpv6DstUnreachable::from(x.reason), header, data: &x.data },
+            0 => Icmpv6Repr::DstUnreachable { reason: of_raw::<Icmpv6DstUnreachable>((x.reason) as u32), header, data: &x.data },
             1 => Icmpv6Repr::PktTooBig { mtu: x.word, header, data: &x.data },
-            2 => Icmpv6Repr::TimeExceeded { reason: Icmpv6TimeExceeded::from(x.reason), header, data: &x.data },
-            3 => Icmpv6Repr::ParamProblem { reason: Icmpv6ParamProblem::from(x.reason), pointer: x.word, header, data: &x.data },
+            2 => Icmpv6Repr::TimeExceeded { reason: of_raw::<Icmpv6TimeExceeded>((x.reason) as u32), header, data: &x.data },
+            3 => Icmpv6Repr::ParamProblem { reason: of_raw::<Icmpv6ParamProblem>((x.reason) as u32), pointer: x.word, header, data: &x.data },
             4 => Icmpv6Repr::EchoRequest { ident: x.ident, seq_no: x.seq_no, data: &x.data },
             _ => Icmpv6Repr::EchoReply { ident: x.ident, seq_no: x.seq_no, data: &x.data },
         };
@@ -612,11 +680,16 @@ impl WireType for Icmp6 {
             let n = gen_payload_len(r, tier, 1452);
             x.data = gen_payload(r, n);
         } else {
-            x.reason = if kind == 1 { 0 } else if r.chance(1, 2) { r.below(7) as u8 } else { gen_u8(r) };
+            x.reason = match kind {
+                0 => draw_raw::<Icmpv6DstUnreachable>(r),
+                2 => draw_raw::<Icmpv6TimeExceeded>(r),
+                3 => draw_raw::<Icmpv6ParamProblem>(r),
+                _ => 0,
+            } as u8;
             x.word = if kind == 1 || kind == 3 { gen_u32(r) } else { 0 };
             x.h_src = gen_ipv6(r);
             x.h_dst = gen_ipv6(r);
-            x.h_proto = *r.pick(&[6u8, 17, 58, 0, 43, 44, 59, 255]);
+            x.h_proto = draw_raw::<IpProtocol>(r) as u8;
             x.h_hop = gen_u8(r);
             x.h_payload_len = gen_u16(r) as usize;
             // cut to IPV6_MIN_MTU by design: at most 1280 - 40 - 8 - 40 = 1192 octets of the offending packet
